@@ -493,6 +493,50 @@ def r17_5(prog, rep, rid="R17.5"):
         rep.broken_("rule=%s expected the yearly and the monthly filler" % rid)
 
 
+def r17_6(prog, rep, rid="R17.6"):
+    """Gregorian Easter Sunday of every year 1901..2099: easter_get_yday() is walked with the year fixed — its arithmetic done in the
+    unsigned types of its expressions — and compared with the anonymous Gregorian computus (Meeus/Jones/Butcher), day of the year by
+    day of the year.  199 years; the two exceptions of the epact correction (1954, 1981, 2049, 2076) are among them."""
+    import datetime
+    from ..absw import AbsWalk, eval_in
+    f = prog.fn("easter_get_yday", "evrrul.c")
+    cfg = f.cfg
+    yp = f.params[0]["n"]
+
+    def computus(y):
+        a = y % 19
+        b, c = divmod(y, 100)
+        d, e = divmod(b, 4)
+        g = (8 * b + 13) // 25
+        h = (19 * a + b - d - g + 15) % 30
+        i, k = divmod(c, 4)
+        l_ = (32 + 2 * e + 2 * i - h - k) % 7
+        m = (a + 11 * h + 19 * l_) // 433
+        mon = (h + l_ - 7 * m + 90) // 25
+        day = (h + l_ - 7 * m + 33 * mon + 19) % 32
+        return datetime.date(y, mon, day).timetuple().tm_yday
+    bad = []
+    for y in range(1901, 2100):
+        outs = []
+
+        def effect(b, i, x, store, outs=outs):
+            if isinstance(x, dict) and x.get("k") == "ret" and x.get("e") is not None:
+                outs.append(eval_in(store, cfg.resolve(x["e"]), f))
+            return None
+        AbsWalk(f, {l_["n"] for l_ in f.locals}, init={yp: y}, effect=effect, max_states=2000).run()
+        if len(set(outs)) != 1 or outs[0] is None:
+            raise AnalysisBroken("easter_get_yday(%d): no single result (%s)" % (y, outs[:2]))
+        want = computus(y)
+        if outs[0] != want:
+            bad.append((y, outs[0], want))
+    key = "easter_get_yday/agrees-with-the-computus"
+    if bad:
+        rep.fail(rid, key, f.loc(), "Easter Sunday comes out wrong for %d of 199 years, e.g. %s: every BYEASTER offset of such a year is off by as much" % (
+            len(bad), "; ".join("%d: day %s of the year instead of %d" % b_ for b_ in bad[:4])), {"years": [list(b_) for b_ in bad[:40]]})
+    else:
+        rep.ok(rid, key, f.loc(), "Easter Sunday of all 199 years 1901..2099 is the computus' day of the year")
+
+
 def run(prog, rep, tier, snap):
     rep.rule("R17.1", "SHIFT bit layout: writer and all readers agree", 10)
     rep.call(r17_1, prog, rep)
@@ -504,4 +548,6 @@ def run(prog, rep, tier, snap):
     rep.call(r17_4, prog, rep)
     rep.rule("R17.5", "the yearly and monthly fillers start a period early for every shift that can move a date forward (value-fixed walk)", 2)
     rep.call(r17_5, prog, rep)
+    rep.rule("R17.6", "Easter Sunday of every year 1901..2099 (value-fixed walk of the computus)", 1)
+    rep.call(r17_6, prog, rep)
 READY = True
